@@ -135,6 +135,7 @@ type UploadItem struct {
 	Path  [][]byte // path items relative to the uploaded folder (raw bytes, may be hostile)
 	IsDir bool
 	Data  []byte
+	Rsrc  []byte // non-nil: the item is streamed with three forks (this one as the resource fork)
 }
 
 // FolderUploadItemHeader: data size (2) = 4 + len(path items bytes)... the client-side
@@ -150,6 +151,13 @@ func FolderUploadItemHeader(it UploadItem) []byte {
 	out = append(out, hlref.BE16(t)...)
 	out = append(out, hlref.BE16(len(it.Path))...)
 	return append(out, items...)
+}
+
+func forksOf(it UploadItem) int {
+	if it.Rsrc != nil {
+		return 3
+	}
+	return 2
 }
 
 type UploadTrace struct {
@@ -225,7 +233,7 @@ func (w *World) FolderUploadCut(remote string, ref []byte, items []UploadItem, c
 			tr.Actions = append(tr.Actions, "next")
 		case 1:
 			tr.Actions = append(tr.Actions, "send")
-			s := UploadStream(name, nil, it.Data, nil, 2)
+			s := UploadStream(name, nil, it.Data, it.Rsrc, forksOf(it))
 			c.Send(append(hlref.BE32(len(s)), s...))
 			if a, ok := c.Take(2); !ok || hlref.U16(a) != 3 {
 				return tr, fmt.Errorf("item %d: no next-file action after the file data (got %x)", i, a)
@@ -248,7 +256,7 @@ func (w *World) FolderUploadCut(remote string, ref []byte, items []UploadItem, c
 			if off > len(it.Data) {
 				off = len(it.Data)
 			}
-			s := UploadStream(name, nil, it.Data[off:], nil, 2)
+			s := UploadStream(name, nil, it.Data[off:], it.Rsrc, forksOf(it))
 			c.Send(append(hlref.BE32(len(s)), s...))
 			if a, ok := c.Take(2); !ok || hlref.U16(a) != 3 {
 				return tr, fmt.Errorf("item %d: no next-file action after the resumed data (got %x)", i, a)
